@@ -190,6 +190,12 @@ fn sub_lattice(spec: &Spec) -> Vec<V> {
             V::So3(neg(quat_axis_angle([0.0, 0.0, 1.0], 2.0))),
             V::So3(quat_axis_angle([1.0, 0.0, 0.0], 180.0)),
         ],
+        // a compound as a component: every third state of its own product lattice (at least 3)
+        Spec::Cmp { parts, .. } => {
+            let full = compound_lattice(parts);
+            let step = (full.len() / 4).max(1);
+            full.into_iter().step_by(step).take(4).collect()
+        }
         _ => unreachable!(),
     }
 }
@@ -214,6 +220,11 @@ fn wild_sub_lattice(spec: &Spec) -> Vec<V> {
                 V::So3(far),
                 V::So3([3.0 * far[0], 3.0 * far[1], 3.0 * far[2], 3.0 * far[3]]),
             ]
+        }
+        Spec::Cmp { parts, .. } => {
+            let full = compound_wild_lattice(parts);
+            let step = (full.len() / 5).max(1);
+            full.into_iter().step_by(step).take(5).collect()
         }
         _ => unreachable!(),
     }
